@@ -554,6 +554,9 @@ func (g *FuncGen) scanCallWrites(c *ast.CallExpr, ws *writeSet) {
 		if name == "sort.Slice" && len(c.Args) > 0 {
 			g.scanLhs(c.Args[0], ws)
 		}
+		for _, k := range libEffectKeys(name) {
+			ws.fields[k] = true
+		}
 		return
 	}
 	// builtin / conversion / call through a function value
@@ -646,6 +649,14 @@ func (g *FuncGen) havoc(st *State, ws *writeSet, why string) {
 			continue
 		}
 		seen[k] = true
+		if isGhostKey(k) {
+			g.ghostGet(pre, k)
+			st.heap[k] = g.fresh("hv_"+heapName(k), ghostKeys[k])
+			if k == "$out" {
+				g.emit(fmt.Sprintf("(assert (<= 0 (slen %s)))", st.heap[k]))
+			}
+			continue
+		}
 		if strings.HasPrefix(k, "$g.") {
 			if _, ok := g.heapKeys[k]; !ok {
 				gv := g.P.globalVar(k)
